@@ -39,6 +39,8 @@ def shards(tier, seed):
     for i in range(n):
         out.append({"name": "hertz-%d" % i, "kind": "hertz", "sps": sps[i::n], "cent_step": step, "weight": 5})
     out.append({"name": "bounds-copy", "kind": "bounds", "weight": 2})
+    for i in range(2 if tier == "quick" else 8):
+        out.append({"name": "reuse-%d" % i, "kind": "reuse", "n": 400 if tier == "quick" else 2500, "weight": 3})
     return out
 
 
@@ -179,6 +181,95 @@ def run(shard, ctx):
         st, d = ctx.call(Note("A", 4).to_hertz)
         ctx.check("hertz: default standard pitch is 440", st == "ok" and abs(d - 440) < 1e-9, {}, 440, repr(d))
         ctx.sample({"Note('C',4).to_hertz()": Note("C", 4).to_hertz(), "from_hertz(261.9)": repr(Note().from_hertz(261.9))})
+    elif kind == "reuse":
+        # one Note object set again and again (every setter, public attributes included) with queries in between: what
+        # it answers always follows its current name and octave, whatever it was before
+        rng = ctx.rng("reuse")
+        names = list(T.pure_names(2)) + ["Cb#", "E#b"]
+        for h in range(shard["n"]):
+            x = Note(rng.choice(names), rng.randint(0, 8))
+            other = Note(rng.choice(names), rng.randint(0, 8))
+            hist = [("Note", x.name, x.octave)]
+            for step in range(rng.randint(2, 9)):
+                # a query first, so that anything the object may remember is there to go stale
+                q = rng.choice(["int", "cmp", "hz", "sort", "repr", "none"])
+                if q == "int":
+                    int(x)
+                elif q == "cmp":
+                    x < other, x == other, x >= other
+                elif q == "hz":
+                    x.to_hertz()
+                elif q == "sort":
+                    sorted([other, x, Note("C", 4)])
+                elif q == "repr":
+                    repr(x)
+                how = rng.choice(["set_note", "set_note-text", "from_int", "from_hertz", "from_shorthand", "attr-name", "attr-octave",
+                                  "attr-both", "augment", "diminish", "change_octave", "octave_up", "transpose", "empty+set"])
+                nm, oc = rng.choice(names), rng.randint(0, 8)
+                exp = None
+                if how == "set_note":
+                    x.set_note(nm, oc)
+                    exp = model_int(nm, oc)
+                elif how == "set_note-text":
+                    x.set_note("%s-%d" % (nm, oc))
+                    exp = model_int(nm, oc)
+                elif how == "from_int":
+                    k = rng.randint(0, 127)
+                    x.from_int(k)
+                    exp = k
+                elif how == "from_hertz":
+                    k = rng.randint(12, 110)
+                    x.from_hertz(440.0 * 2 ** ((k - 57) / 12.0))
+                    exp = k
+                elif how == "from_shorthand":
+                    x.from_shorthand(helm(nm, oc))
+                    exp = model_int(nm, oc)
+                elif how == "attr-name":
+                    x.name = nm
+                    exp = model_int(nm, x.octave)
+                elif how == "attr-octave":
+                    x.octave = oc
+                    exp = model_int(x.name, oc)
+                elif how == "attr-both":
+                    x.name, x.octave = nm, oc
+                    exp = model_int(nm, oc)
+                elif how in ("augment", "diminish"):
+                    before = model_int(x.name, x.octave)
+                    getattr(x, how)()
+                    exp = before + (1 if how == "augment" else -1)
+                elif how == "change_octave":
+                    d = rng.randint(-2, 2)
+                    before = (x.name, x.octave)
+                    x.change_octave(d)
+                    exp = model_int(before[0], max(0, before[1] + d))
+                elif how == "octave_up":
+                    before = (x.name, x.octave)
+                    x.octave_up()
+                    exp = model_int(before[0], before[1] + 1)
+                elif how == "transpose":
+                    sh = rng.choice(["3", "b3", "5", "4", "b7", "2", "6", "#4"])
+                    up = rng.random() < 0.5
+                    before = model_int(x.name, x.octave)
+                    x.transpose(sh, up)
+                    exp = before + (T.shorthand_size(sh) if up else -T.shorthand_size(sh))
+                else:
+                    x.empty()
+                    x.set_note(nm, oc)
+                    exp = model_int(nm, oc)
+                hist.append((q, how, nm, oc))
+                own = model_int(x.name, x.octave)
+                w = {"history": hist}
+                ctx.check("pitch: a note that is set again answers for its current name and octave", own == exp and int(x) == exp, w,
+                          exp, {"name": x.name, "octave": x.octave, "int": int(x)}, mechanism="reuse:" + how)
+                oi = model_int(other.name, other.octave)
+                got = [f(x, other) for (_s, f) in OPS]
+                ctx.check("order: comparisons of a note that was set again follow its current pitch", got == [f(exp, oi) for (_s, f) in OPS],
+                          w, [f(exp, oi) for (_s, f) in OPS], got, mechanism="reuse-order:" + how)
+                st, hz = ctx.call(x.to_hertz)
+                ctx.check("hertz: the frequency of a note that was set again follows its current pitch",
+                          st == "ok" and abs(hz - 440.0 * 2 ** ((exp - 57) / 12.0)) <= 1e-9 * hz, w, None, repr(hz), mechanism="reuse-hz:" + how)
+            ctx.case(("reuse", tuple(hist)))
+        ctx.sample({"reuse": "Note; query; setter (set_note/from_int/from_hertz/from_shorthand/attributes/augment/...); compare with the model"})
     else:
         for v in list(range(-3, 4)) + list(range(124, 131)) + [255, 256, 1000, -128]:
             okv = 0 <= v <= 127
